@@ -15,6 +15,7 @@ import (
 	"strings"
 	"sync"
 	"testing"
+	"testing/iotest"
 	"time"
 
 	"github.com/oneconcern/datamon/pkg/storage"
@@ -224,7 +225,7 @@ func TestC16(t *testing.T) {
 	if !lib.Thorough() {
 		nk = 5
 	}
-	rep.Rule = fmt.Sprintf("(a) all 3^%d states over keys %v (absent/d1/d2) on afero OsFs and MemMapFs: full observer battery in every state (Get/Has/GetAttr of every key, Keys, KeysPrefix x 7 prefixes x 2 delimiters x every page size, paginated) and every transition (Put excl/overwrite of each key and datum, Delete of each key and of each name that is a proper path prefix of keys, an abandoned first listing page followed by a mutation and a fresh listing) compared with a map model; (b) 2..3 concurrent exclusive Puts of different bytes to one key, afero calls gated, all interleavings; (c) one Put (overwrite with a shorter / longer value, or exclusive create; with and without the store's lock option) concurrent with one Get+read of the same key through the same store object, afero open/read/write/close calls gated, all interleavings: the read returns the previous or the new object, never anything else; plus, sequentially and with/without the store's lock option: Get, overwrite, then consume the reader; distinct = distinct (backend,state)", nk, c16keys[:nk])
+	rep.Rule = fmt.Sprintf("(a) all 3^%d states over keys %v (absent/d1/d2) on afero OsFs and MemMapFs: full observer battery in every state (Get/Has/GetAttr of every key, Keys, KeysPrefix x 7 prefixes x 2 delimiters x every page size, paginated) and every transition (Put excl/overwrite of each key and datum from an io.WriterTo / a plain reader / a reader delivering its last bytes with EOF, Delete of each key and of each name that is a proper path prefix of keys, an abandoned first listing page followed by a mutation and a fresh listing) compared with a map model; (b) 2..3 concurrent exclusive Puts of different bytes to one key, afero calls gated, all interleavings; (c) one Put (overwrite with a shorter / longer value, or exclusive create; with and without the store's lock option) concurrent with one Get+read of the same key through the same store object, afero open/read/write/close calls gated, all interleavings: the read returns the previous or the new object, never anything else; plus, sequentially and with/without the store's lock option: Get, overwrite, then consume the reader; distinct = distinct (backend,state)", nk, c16keys[:nk])
 	total := 1
 	for i := 0; i < nk; i++ {
 		total *= 3
@@ -281,7 +282,16 @@ func TestC16(t *testing.T) {
 					for _, excl := range []bool{true, false} {
 						excl := excl
 						ops = append(ops, op{fmt.Sprintf("Put(%s,d%d,excl=%v)", k, v, excl), func(st storage.Store, m map[string][]byte) string {
-							err := st.Put(ctx, k, bytes.NewReader(d), excl)
+							// the three shapes a source may have: an io.WriterTo, a plain reader ending with (0, EOF), a plain
+							// reader delivering its last bytes together with EOF (rotated over keys and data)
+							var src io.Reader = bytes.NewReader(d)
+							switch (ki + v) % 3 {
+							case 1:
+								src = plainReader{bytes.NewReader(d)}
+							case 2:
+								src = iotest.DataErrReader(plainReader{bytes.NewReader(d)})
+							}
+							err := st.Put(ctx, k, src, excl)
 							_, exists := m[k]
 							if excl && exists {
 								if err == nil {
